@@ -100,7 +100,7 @@ def end_to_end(sc, verdict, thorough, seed):
         ncmd = rnd.choice([20, 30, 45])
         scen.append({"seed": rnd.randrange(1 << 30), "start": rnd.choice([0, 1000, 2 ** 31 + 5, 2 ** 40]), "commands": ncmd,
                      "idles": sorted(rnd.sample(range(2, ncmd - 2), 1)), "idle_ms": 1300, "drops": sorted(rnd.sample(range(3, ncmd - 3), rnd.choice([0, 1, 2]))),
-                     "drop_skew": rnd.choice([0, 5, 13]), "refuse": 0, "frags": rnd.choice([[], [7], [1000]]), "quiet_ms": 2600, "budget_ms": 40000,
+                     "drop_skew": rnd.choice([0, 5, 13]), "refuse": 0, "frags": rnd.choice([[], [7], [1000]]), "quiet_ms": 3400, "budget_ms": 40000,
                      "resume_at": (rnd.randrange(2, 8) if i % 3 == 2 else 0), "trace": sc.path("e2e-%d.ndjson" % i)})
 
     def one(s):
